@@ -18,7 +18,10 @@ from typing import Any
 
 import falcon
 
+from vgi_rpc.rpc import _EMPTY_SCHEMA
+
 from .._common import (
+    _ARROW_CONTENT_TYPE,
     _ERROR_PAGE_STYLE,
     _FONT_IMPORTS,
     _VGI_LOGO_HTML,
@@ -26,6 +29,7 @@ from .._common import (
     AUTH_REASON_HEADER,
 )
 from .._unauthorized import AuthReason
+from ._responses import _error_response_stream
 
 _NOT_FOUND_HTML_TEMPLATE = (
     """\
@@ -173,6 +177,17 @@ def _make_error_serializer(proxy_hint: str = "") -> Callable[[falcon.Request, fa
     def _serialize(req: falcon.Request, resp: falcon.Response, exc: falcon.HTTPError) -> None:
         """Serialize one Falcon error onto the response."""
         if not isinstance(exc, falcon.HTTPUnauthorized):
+            if exc.status_code in (400, 413) and req.method == "POST":
+                # An RPC request refused before dispatch (oversize or
+                # undecodable body; the request-size and content-decoding
+                # middlewares are the only sources of these two statuses).
+                # WIRE_PROTOCOL section 13: a 400/413 on an RPC route still
+                # carries an Arrow IPC error stream, which is what an Arrow
+                # client expects to parse.
+                text = f"{exc.title}: {exc.description}" if exc.description else str(exc.title)
+                resp.content_type = _ARROW_CONTENT_TYPE
+                resp.stream = _error_response_stream(RuntimeError(text), _EMPTY_SCHEMA)
+                return
             resp.content_type = falcon.MEDIA_JSON
             resp.data = exc.to_json()
             return
